@@ -231,3 +231,27 @@ Print Assumptions C08_new_packet_buffer_is_source.
 Theorem C08_rest_len_new : forall data f k, rest_len (new_reader data f k).
 Proof. exact rest_len_new. Qed.
 Print Assumptions C08_rest_len_new.
+
+(* NewDemuxer and the DemuxerOpt* options are regenerated too (Gen/RestGen.v, go/gen/restgen.go: the options as the
+   inductive DemuxerOpt with DemuxerOpt_apply, `for _, opt := range opts { opt(d) }` as a fold).  Instantiated with the
+   model's types (new_demuxer of Proofs/RestGenDemux.v: reader, pbuf, pool, the regenerated programMap / newProgramMap, the
+   empty pool for newPacketPool) the Demuxer it builds is, for EVERY option list, init_dstate r size — the initial state of
+   every theorem above — where size is what the last DemuxerOptPacketSize set, 0 (auto-detection) when there is none: no
+   packet buffer yet (the size is read when the first packet is asked for), empty data buffer, empty pool, empty program
+   map.  A constructor that ignores the packet size option breaks this proof. *)
+Require Import Gen.RestGen Proofs.RestGenPm Proofs.RestGenDemux.
+Theorem C08_new_demuxer_is_source : forall (PP PS : Type) r (opts : list (gopt PP PS)),
+  let d := new_demuxer PP PS r opts in
+  dstate_of PP PS d = init_dstate r (opts_packet_size PP PS opts 0) /\
+  Demuxer_optPacketSize d = opts_packet_size PP PS opts 0 /\
+  Demuxer_optPacketsParser d = opts_parser PP PS opts None /\
+  Demuxer_optPacketSkipper d = opts_skipper PP PS opts None /\
+  Demuxer_dataBuffer d = [] /\ Demuxer_packetBuffer d = None /\ Demuxer_packetPool d = Some [] /\
+  Demuxer_programMap d = Some (newProgramMap lm_make) /\ Demuxer_r d = r.
+Proof. exact new_demuxer_is_generated. Qed.
+Print Assumptions C08_new_demuxer_is_source.
+Theorem C08_new_demuxer_packet_size : forall (PP PS : Type) r n,
+  dstate_of PP PS (new_demuxer PP PS r [DemuxerOptPacketSize n]) = init_dstate r n /\
+  dstate_of PP PS (new_demuxer PP PS r []) = init_dstate r 0.
+Proof. exact new_demuxer_packet_size. Qed.
+Print Assumptions C08_new_demuxer_packet_size.
